@@ -2,7 +2,9 @@
 
 1. TLC: the simulation protocol on value identities (spec/EFSim.tla): every failure point of the creation sequence
    (filter, copy, apply, allowed-values check, each recomputation) x any sequence of set / reset toggles; invariant
-   BaselineIntact (the very same value objects in every slot and the same children sets among them).
+   BaselineIntact (the very same value objects in every slot and the same children sets among them); two simulations side by
+   side on one system, either of which can be switched on and off (ResetSwitchesOff; a model in which only the last started
+   simulation puts the baseline back must give a counterexample).
 2. conformance: seeded real systems (all sharing patterns), change lists (inputs, links / lists, mixtures, invalid,
    not-allowed and recomputation-failing ones), dates inside and outside the period and naive, toggle sequences; before
    and after every operation the identity of every value object, the dependency graph on both ends, value classes and
@@ -17,10 +19,10 @@ KEYS = ("tid", "seq", "ev", "tok", "val", "chld", "anc", "links", "outcome", "ex
         "n_values_to_recompute", "all_ups_active", "date_hour", "hourly_input_changed", "timeline_shifted", "period_refusal")
 
 
-def model_cfg(structural):
-    return ("SPECIFICATION Spec\nCONSTANTS\n  RestoreOnFailure = TRUE\n  Structural = %s\nVIEW View\n"
-            "INVARIANT BaselineIntact\nINVARIANT TwinsPaired\nINVARIANT SimulatedValuesInstalled\nINVARIANT GraphClosed\n"
-            "PROPERTY AllOrNothing\n" % structural)
+def model_cfg(structural, max_sims=2, reset_only_latest="FALSE"):
+    return ("SPECIFICATION Spec\nCONSTANTS\n  RestoreOnFailure = TRUE\n  Structural = %s\n  MaxSims = %d\n  ResetOnlyLatest = %s\n"
+            "VIEW View\nINVARIANT BaselineIntact\nINVARIANT TwinsPaired\nINVARIANT SimulatedValuesInstalled\nINVARIANT GraphClosed\n"
+            "PROPERTY AllOrNothing\nPROPERTY ResetSwitchesOff\n" % (structural, max_sims, reset_only_latest))
 
 
 def run_focus(prop, focus, tier, out):
@@ -33,6 +35,11 @@ def run_focus(prop, focus, tier, out):
             out.add_tlc(res, f"EFSim protocol, structural={st}", exhaustive=res.completed)
             if res.error:
                 out.violation("model:" + res.error, {"tlc_output_tail": res.out[-4000:]})
+        if focus == "C05":
+            # the model is not vacuous about several simulations: if only the last started one put the baseline back, TLC finds it
+            resw = tlc.run_tlc(wd, "EFSim", model_cfg("FALSE", reset_only_latest="TRUE"), workers=4, timeout=900)
+            if not (resw.error and "ResetSwitchesOff" in resw.out):
+                raise MachineryError("EFSim did not produce the expected counterexample for ResetOnlyLatest")
         ns = efx.load()
         base = seed_from_env() * 100000
         n = 60 if tier == "quick" else 1200
